@@ -80,6 +80,9 @@ class SimTerminal:
         if self.ee_busy > 0:
             self.ee_busy -= 1
             busy = 0x8000
+        elif getattr(self, "ee_pending", None) is not None:
+            self.mem[0x508:0x508 + 8] = self.ee_pending
+            self.ee_pending = None
         word = busy | (0x40 if self.eeprom8 else 0)
         self.mem[0x502:0x504] = struct.pack("<H", word)
 
@@ -122,8 +125,12 @@ class SimTerminal:
             n = 8 if self.eeprom8 else 4
             chunk = self.eeprom[addr * 2:addr * 2 + n]
             chunk = chunk + bytes([0xff]) * (n - len(chunk))
-            self.mem[0x508:0x508 + 8] = chunk + bytes(8 - n) if not self.eeprom8 else chunk
+            # the data register shows the new data only once the busy flag has cleared (until then: the stale contents)
+            self.ee_pending = chunk + bytes(8 - n) if not self.eeprom8 else chunk
             self.ee_busy = self.busy_polls if self.rng is None else self.rng.randint(0, self.busy_polls)
+            if self.ee_busy == 0:
+                self.mem[0x508:0x508 + 8] = self.ee_pending
+                self.ee_pending = None
 
     # -- FMMU lookup: list of (logical, length, phys, type) for active entries
     def fmmus(self):
